@@ -183,6 +183,24 @@ PLANS["C24"] = C(
     "identities pairwise distinct per type, read-back equals created values; non-trivial iff structs were created" + ILV,
     [sched(12000, 300000), osrun(480, 12000), tsan(1500)],
     {"created": 100000, "schedules": 50000})
+PLANS["C22"] = {
+    "level": "fault_enumeration",
+    "rule": ("case = seeded small (program, history) from the acyclic families (makers with user Eq on fields, interning with user Hash/Eq "
+             "keys, specify, accumulate, durabilities) or fixpoint cycles with cycle_fn; run 0 counts the user-code steps N of the whole "
+             "history (body starts, mid-body points, Eq/Clone of values, Hash/Eq of interned keys, cycle functions, the event callback by "
+             "event kind); run i in 1..N panics at step i (all N when N <= 120 (quick) / 400 (thorough), else a sample); one evaluation = "
+             "one injection point; checked: the panic reaches the caller, the same request and all later steps of the history agree with "
+             "the reference (propagated panics allowed for fixpoint functions within the fault's revision), and in the next revision "
+             "every node is computable and correct; second run: two OS threads request overlapping functions while a fault is armed "
+             "(the waiter gets a propagated panic or a correct value, never hangs); non-trivial iff >=2 distinct injection sites fired"),
+    "runs": [
+        {"sub": "fault", "cfg": "native", "quick": {"cases": 4000, "secs": 150}, "thorough": {"cases": 120000, "secs": 900}},
+        osrun(320, 8000),
+    ],
+    "min_counts": {"quick": {"faults_fired": 50000, "recovered_next_revision": 50000, "site:Eq": 500, "site:KeyHash": 500,
+                             "site:EvDiscard": 100, "site:CycleFn": 50, "waiter_released_with_propagated_panic": 20}},
+    "assumptions": ASSUME_SINGLE + ["user-code steps are those of the harness's own functions and value types; a panic inside Drop is not injected"],
+}
 PLANS["C14"]["runs"].append(osrun(480, 12000))
 PLANS["C14"]["min_counts"]["quick"]["propagated_cycle_panics"] = 5
 PLANS["C14"]["rule"] += ("; second run: the same cyclic programs entered from 2-3 OS threads with failpoint delays (cycle panic on the "
